@@ -1,4 +1,5 @@
 import JsonVerif.Lemmas.CanonThm
+import JsonVerif.Lemmas.CanonNum
 import JsonVerif.Lemmas.PrintOneLine
 /-!
 # C09 — Canonicalization conforms to RFC 8785 (JSON Canonicalization Scheme)
@@ -32,6 +33,18 @@ theorem C09_sorted_partial (nc : List Char → List Char) (v : JValue) : AllSort
 theorem C09_members_partial (nc : List Char → List Char) (es : List (List Char × JValue)) :
     ∃ l, canon nc (.object es) = .object l ∧ l.Perm (es.map (fun e => (e.1, canon nc e.2))) :=
   ⟨_, rfl, by rw [← canonM_eq_map]; exact List.mergeSort_perm _ _⟩
+
+/-- **Declarative characterisation** (everything of RFC 8785 §3.2 except how a number is rendered,
+    which is `nc`): the canonical value is (1) the input with every number replaced by its `nc`
+    spelling, up to the order of members at every depth — nothing dropped, added, merged or
+    changed otherwise —, (2) with all numbers in canonical spelling, (3) with the members of every
+    object sorted by UTF-16 code units; and (4) it is the ONLY value with these three properties.
+    (`nc` idempotent: a canonical spelling is its own canonical spelling.) -/
+theorem C09_characterisation (nc : List Char → List Char) (hnc : ∀ n, nc (nc n) = nc n) (v : JValue) :
+    PermEq (mapNumbers nc v) (canon nc v) ∧ NumsFixed nc (canon nc v) ∧ AllSorted (canon nc v) ∧
+    ∀ w, PermEq (mapNumbers nc v) w → NumsFixed nc w → AllSorted w → w = canon nc v :=
+  ⟨canon_permEq_mapNumbers nc v, canon_numsFixed nc hnc v, canon_allSorted nc v,
+   fun w hp hn hs => canon_unique nc hnc v w hp hs hn⟩
 
 /-- The order really is the UTF-16 one, not code-point order: U+10000 (units D800 DC00) sorts
     before U+E000 although its code point is larger (the case repaired by a `fix:` commit). -/
